@@ -38,6 +38,7 @@ Definition w3_s0 : state := [w_cv [34; 35] []].
 Lemma w3_witness : exists s s',
   enable gen_tables 20 0 20 false true false w3_s0 = Some (true, s) /\
   In 7 (f_self (feat gen_tables (cls_of s 0) 20)) /\ is_enabled s 0 20 = true /\ is_enabled s 0 7 = true /\
+  fs_rc (get_fs s 0 7) = 1%Z /\
   disable gen_tables 20 0 7 s = Some (true, s') /\
   is_enabled s' 0 20 = true /\ is_enabled s' 0 7 = false.
 Proof. do 2 eexists. wit. Qed.
@@ -51,8 +52,10 @@ Lemma w4_witness : exists s',
   is_enabled w4_s0 0 3 = false /\ is_enabled s' 0 3 = true /\ fs_rc (get_fs s' 0 3) = 1%Z /\ is_enabled s' 0 4 = false.
 Proof. do 1 eexists. wit. Qed.
 
-(* F1: variable 0, biases 1 and 2 on it, both active and applying forces; bias 1 is put to sleep
-   (disable active: its children references are released), then deleted (released again) *)
+(* F1 (repaired in the code, fix "deleting a sleeping bias released its variables' dependencies twice"):
+   variable 0, biases 1 and 2 on it, both active and applying forces; bias 1 is put to sleep (disable active:
+   its children references are released), then deleted.  Regression example on the real tables: the
+   requirement of the surviving bias 2 stays enabled in the variable. *)
 Definition w1_s0 : state := [w_cv [34; 35] [1; 2]; w_bias [0]; w_bias [0]].
 Definition w1_ops : list (op) :=
   [OpEnable 0 0 false true false; OpEnable 1 0 false true false; OpEnable 1 3 false true false;
@@ -61,14 +64,14 @@ Definition run_ops (T : tables) (n : nat) (ops : list op) (s : state) : option s
   fold_left (fun acc p => match acc with None => None | Some s => match run_op T n p s with None => None | Some (_, s') => Some s' end end)
             ops (Some s).
 
-Lemma w1_witness : exists s s',
+Lemma w1_regression : exists s s',
   run_ops gen_tables 20 w1_ops w1_s0 = Some s /\
-  (* bias 2 is active, applies forces (3), which requires apply_force (2) in its child 0, and that holds *)
+  is_enabled s 1 0 = false /\ is_enabled s 1 3 = true /\
   is_enabled s 2 0 = true /\ is_enabled s 2 3 = true /\ In 2 (f_children (feat gen_tables 0 3)) /\
-  In 0 (o_children (get_obj s 2)) /\ is_enabled s 0 2 = true /\
-  (* deleting the sleeping bias 1 switches it off in the variable although bias 2 still needs it *)
+  In 0 (o_children (get_obj s 2)) /\ is_enabled s 0 2 = true /\ fs_rc (get_fs s 0 2) = 1%Z /\
   delete_bias gen_tables 20 1 s = Some s' /\
-  is_enabled s' 2 0 = true /\ is_enabled s' 2 3 = true /\ In 0 (o_children (get_obj s' 2)) /\ is_enabled s' 0 2 = false.
+  is_enabled s' 2 3 = true /\ In 0 (o_children (get_obj s' 2)) /\ is_enabled s' 0 2 = true /\ fs_rc (get_fs s' 0 2) = 1%Z /\
+  o_parents (get_obj s' 0) = [2].
 Proof. do 2 eexists. wit. Qed.
 
 (* F2: an active variable (toplevel enable: ref_count 0), a bias is linked to it, activated, deleted *)
@@ -81,3 +84,23 @@ Lemma w2_witness : exists s0 s1 s2 s3,
   delete_bias gen_tables 20 1 s2 = Some s3 /\
   o_children (get_obj s3 1) = [] /\ o_parents (get_obj s3 0) = [] /\ is_enabled s3 0 0 = false.
 Proof. do 4 eexists. wit. Qed.
+
+(* ------------------------------------------------------------------------------------------
+   Termination of enable on the real tables (both variants): table lengths <= 38, so fuel above
+   height(o) * 39 + 38 suffices; with the four levels bias(3) > variable(2) > component(1) > atom group(0)
+   that is at most 155. *)
+Lemma gen_enable_terminates : forall T, T = gen_tables \/ T = gen_tables_lagged ->
+  forall (h : nat -> nat) (s0 : state), (forall o c, In c (o_children (get_obj s0 o)) -> h c < h o) ->
+  forall n o f dry top err s, same_shape s0 s -> h o * 39 + 38 < n ->
+  exists r s', enable T n o f dry top err s = Some (r, s') /\ same_shape s0 s'.
+Proof.
+  intros T [HT|HT]; subst T; apply (enable_terminates_tables _ 38); vm_compute; reflexivity.
+Qed.
+
+Lemma gen_restore_terminates : forall T, T = gen_tables \/ T = gen_tables_lagged ->
+  forall (h : nat -> nat) (s0 : state), (forall o c, In c (o_children (get_obj s0 o)) -> h c < h o) ->
+  forall n o s, same_shape s0 s -> h o * 39 <= n ->
+  exists s', restore_children_deps T n o s = Some s' /\ same_shape s0 s'.
+Proof.
+  intros T [HT|HT]; subst T; apply (restore_terminates_tables _ 38); vm_compute; reflexivity.
+Qed.
